@@ -310,7 +310,7 @@ input pending or had an output < 6; distinct by decoded-choice digest.",
     }],
     randoms: &[RandomDef {
         name: "histories",
-        cases: |t: Tier| t.pick(24_000, 1_600_000),
+        cases: |t: Tier| t.pick(400_000, 8_000_000),
         tape_len: 220,
         exec: None,
     }],
